@@ -7,8 +7,36 @@ use mqtt_proto::{Pid, Protocol, QoS, QosPid, TopicFilter, TopicName};
 use std::convert::TryFrom;
 use std::sync::Arc;
 
-pub const CHARS: [&str; 12] = ["a", "b", "z", "0", " ", "/", "$", "é", "你", "😀", "\u{7f}", "\u{0}"];
-pub const TOPIC_CHARS: [&str; 8] = ["a", "b", "0", " ", "$", "é", "你", "😀"];
+/// Characters an implementation might treat specially although MQTT does not: BOM, non-characters,
+/// the edges of the surrogate gap and of Unicode, white space of several kinds (trimming), a combining
+/// mark (normalisation), upper case (case folding), zero-width space.
+pub const SPECIALS: [&str; 16] = ["\u{feff}", "\u{fffe}", "\u{ffff}", "\u{d7ff}", "\u{e000}", "\u{10ffff}", "\u{a0}", "\t", "\n", "\r", "\u{2028}", "\u{301}", "A", "\u{85}", "\u{200b}", "\u{1}"];
+pub const CHARS: [&str; 28] = ["a", "b", "z", "0", " ", "/", "$", "é", "你", "😀", "\u{7f}", "\u{0}", "\u{feff}", "\u{fffe}", "\u{ffff}", "\u{d7ff}", "\u{e000}", "\u{10ffff}", "\u{a0}", "\t", "\n", "\r", "\u{2028}", "\u{301}", "A", "\u{85}", "\u{200b}", "\u{1}"];
+pub const TOPIC_CHARS: [&str; 24] = ["a", "b", "0", " ", "$", "é", "你", "😀", "\u{feff}", "\u{fffe}", "\u{ffff}", "\u{d7ff}", "\u{e000}", "\u{10ffff}", "\u{a0}", "\t", "\n", "\r", "\u{2028}", "\u{301}", "A", "\u{85}", "\u{200b}", "\u{1}"];
+
+pub fn boundaries_path() -> Option<std::path::PathBuf> {
+    let exe = std::env::current_exe().ok()?;
+    Some(exe.parent()?.parent()?.join("boundaries.txt"))
+}
+
+/// Arguments at which `var_int_len` / `total_len` / `header_len` / `remaining_len` of the code under
+/// test change value, as found by the last `gen-tables` total scan (the standard's 128, 16384, … on a
+/// correct tree; whatever else the current code does on a changed one).  Every generator uses them,
+/// ±1, as lengths and variable-byte-integer values.
+pub fn boundaries() -> &'static [usize] {
+    static B: std::sync::OnceLock<Vec<usize>> = std::sync::OnceLock::new();
+    B.get_or_init(|| {
+        let mut v: Vec<usize> = boundaries_path()
+            .and_then(|p| std::fs::read_to_string(p).ok())
+            .map(|t| t.lines().filter_map(|l| l.trim().parse().ok()).collect())
+            .unwrap_or_default();
+        let more: Vec<usize> = v.iter().flat_map(|b: &usize| [b.saturating_sub(1), *b + 1]).collect();
+        v.extend(more);
+        v.sort();
+        v.dedup();
+        v
+    })
+}
 
 #[derive(Clone, Copy)]
 pub struct Sizes {
@@ -19,8 +47,17 @@ pub fn pick_len(rng: &mut Rng, sz: Sizes) -> usize {
     let r = rng.below(100);
     if r < 70 {
         rng.below(12) as usize
-    } else if r < 90 {
+    } else if r < 80 {
         *rng.pick(&[0usize, 1, 2, 126, 127, 128, 129, 200])
+    } else if r < 90 {
+        // a code-derived boundary (only the cheap ones unless this packet may be big)
+        let cap = if sz.big { 65535 } else { 9000 };
+        let c: Vec<usize> = boundaries().iter().cloned().filter(|b| *b <= cap).collect();
+        if c.is_empty() {
+            128
+        } else {
+            *rng.pick(&c)
+        }
     } else if sz.big {
         *rng.pick(&[16382usize, 16383, 16384, 16385, 65534, 65535, 1000, 40000])
     } else {
@@ -433,7 +470,14 @@ pub fn gen_props(rng: &mut Rng, ids: &[u8], sz: Sizes, mode: u8, one: usize) -> 
             's' => Val::Str(gen_text(rng, sz)),
             't' => Val::Str(gen_topic_name(rng, sz).to_string()),
             'y' => Val::Bin(gen_bytes(rng, sz)),
-            _ => Val::VarInt(*rng.pick(&[0u32, 1, 127, 128, 16383, 16384, 2097151, 2097152, 268435455])),
+            _ => {
+                let c: Vec<usize> = boundaries().iter().cloned().filter(|b| *b < (1 << 28)).collect();
+                if !c.is_empty() && rng.chance(1, 2) {
+                    Val::VarInt(*rng.pick(&c) as u32)
+                } else {
+                    Val::VarInt(*rng.pick(&[0u32, 1, 127, 128, 16383, 16384, 2097151, 2097152, 268435455]))
+                }
+            }
         };
         m.known.insert(*id, v);
     }
